@@ -134,3 +134,12 @@ pub open spec fn flush_measure(s: &Segment) -> nat {
 
 // every message of a segment, wherever it lives
 pub open spec fn seg_all(s: &Segment) -> Seq<RetainedMessage> { flat(seg_disk(s)) + seg_buf(s) }
+
+// the six shared counter cells of a segment keep their identity (no operation re-wires them)
+pub open spec fn same_cells(a: &Segment, b: &Segment) -> bool {
+    a.size_of_parent_stream.cid == b.size_of_parent_stream.cid && a.size_of_parent_topic.cid == b.size_of_parent_topic.cid
+    && a.size_of_parent_partition.cid == b.size_of_parent_partition.cid
+    && a.messages_count_of_parent_stream.cid == b.messages_count_of_parent_stream.cid
+    && a.messages_count_of_parent_topic.cid == b.messages_count_of_parent_topic.cid
+    && a.messages_count_of_parent_partition.cid == b.messages_count_of_parent_partition.cid
+}
